@@ -184,7 +184,16 @@ F1 = F1 + [("add", T(["P", "z", "A+,B+,p+", "*"])), ("add", T(["P", "z", "B-,A-,
 HADD = [("hadd", "xx", "a", "Z"), ("hadd", "xx", 1.5, "f"), ("hadd", "xx", "a", None),
         ("hadd", "TS", 7, "i"), ("hadd", "TS", "x", "Z"), ("hadd", "xx", "[1]", "J")]
 F1 = F1 + HADD
-F2 = F2 + HADD
+FRAG = T(["F", "a", "x+", "0", "2", "0", "2", "*"])
+F2 = F2 + HADD + [
+    # a fragment is filed under its external sequence: malformed values
+    ("setfield", FRAG, "external", "read2"), ("setfield", FRAG, "external", "re ad2+"),
+    ("setfield", FRAG, "external", ""), ("setfield", FRAG, "sid", "a b"),
+    # a refused line that carries an identifier a group refers to in advance
+    ("add", T(["E", "u1", "c+", "o1-", "0", "1", "0", "1", "*"])),
+    ("add", T(["G", "u1", "c+", "o1-", "1", "*"])),
+    ("add", T(["E", "e1", "c+", "u2-", "0", "1", "0", "1", "*"])),
+]
 U1 = universe.G1_CORE + [T(["H", "TS:i:1"]), T(["H", "xx:i:1"]),
                          T(["L", "B", "+", "C", "+", "*", "ID:Z:x"])]
 U2 = universe.G2_CORE + [T(["H", "TS:i:1"]), T(["H", "xx:i:1"]), T(["U", "u3", "a", "xx:i:1"]),
